@@ -64,7 +64,11 @@ func buildParser(gr *gfam.Grammar, tc g.TypeCache, k int) (p *participle.Parser[
 		}, "Ident"))
 	}
 	if len(gr.CI) > 0 {
-		opts = append(opts, participle.CaseInsensitive(gr.CI...))
+		// one option per type, and one more for a type whose texts have no case: the set is the union
+		for _, c := range gr.CI {
+			opts = append(opts, participle.CaseInsensitive(c))
+		}
+		opts = append(opts, participle.CaseInsensitive("Int"))
 	}
 	pan, msg := hx.Guard(func() { p, err = participle.Build[any](opts...) })
 	if pan {
@@ -414,6 +418,7 @@ func families(prop string, t gfam.Tier) []*gfam.Grammar {
 		out = append(out, gfam.CaseInsensitive(t)...)
 		out = append(out, gfam.EOFRef(t)...)
 		out = append(out, gfam.ParseableFam(t)...)
+		out = append(out, gfam.ElidedExplicit(t)...)
 	case "C02":
 		out = append(out, gfam.SubProd(t)...)
 		out = append(out, gfam.NegLookDeep(t)...)
@@ -431,6 +436,74 @@ func families(prop string, t gfam.Tier) []*gfam.Grammar {
 		out = append(out, gfam.Kinds(t)...)
 	}
 	return out
+}
+
+// runSharedOptions (C10): option values and the slices handed to them are the caller's. Two parsers built
+// from one shared list of elided names (with spare capacity) plus one name of their own each, and a parser
+// derived with ParserForProduction, still elide what they were told to elide.
+type soStmt struct {
+	Name string `@Ident`
+	Val  string `@Int ";"`
+}
+type soDoc struct {
+	Stmts []*soStmt `@@*`
+}
+
+func runSharedOptions(w *hx.Worker) {
+	inputs := []string{"a1;", "a 1;", "a#1;", "a\n1;", " a 1 ; b 2 ;", "a#1\n;b 2;", "a 1;#\n", "#a 1;", "\n\na 1;"}
+	render := func(v *soDoc, err error) string {
+		b, _ := json.Marshal(v)
+		return fmt.Sprintf("%s err=%v", b, err)
+	}
+	build := func(extra ...participle.Option) (*participle.Parser[soDoc], error) {
+		return participle.Build[soDoc](append([]participle.Option{participle.Lexer(lexDef)}, extra...)...)
+	}
+	// reference: each configuration built alone with literal names
+	refA, err1 := build(participle.Elide("Space", "Comment"))
+	refB, err2 := build(participle.Elide("Space", "NL"))
+	if err1 != nil || err2 != nil {
+		w.Violate(hx.Violation{Key: "shared-options build", Class: "build-failed", Detail: map[string]any{"err": fmt.Sprint(err1, err2)}})
+		return
+	}
+	common := make([]string, 0, 8)
+	common = append(common, "Space")
+	pA, err1 := build(participle.Elide(common...), participle.Elide("Comment"))
+	pB, err2 := build(participle.Elide(common...), participle.Elide("NL"))
+	if err1 != nil || err2 != nil {
+		w.Violate(hx.Violation{Key: "shared-options build", Class: "build-failed", Detail: map[string]any{"err": fmt.Sprint(err1, err2)}})
+		return
+	}
+	for i := range common[:cap(common)] {
+		common[:cap(common)][i] = "Ident" // the caller re-uses its slice
+	}
+	for _, in := range inputs {
+		w.Count("evaluations", 2)
+		if a, b := render(pA.ParseString("", in)), render(refA.ParseString("", in)); a != b {
+			w.Violate(hx.Violation{Key: fmt.Sprintf("shared-options :: first parser (Elide(common...), Elide(Comment)) :: in=%q", in), Class: "elision-set-changed-by-later-build-or-caller", Detail: map[string]any{"got": a, "built_alone": b}})
+		}
+		if a, b := render(pB.ParseString("", in)), render(refB.ParseString("", in)); a != b {
+			w.Violate(hx.Violation{Key: fmt.Sprintf("shared-options :: second parser (Elide(common...), Elide(NL)) :: in=%q", in), Class: "elision-set-changed-by-later-build-or-caller", Detail: map[string]any{"got": a, "built_alone": b}})
+		}
+		w.DistinctS("so" + render(pA.ParseString("", in)))
+	}
+	// a parser derived for a sub-production elides like the parser it was derived from
+	derived, err := participle.ParserForProduction[soStmt](refA)
+	if err != nil {
+		w.Violate(hx.Violation{Key: "shared-options ParserForProduction", Class: "build-failed", Detail: map[string]any{"err": err.Error()}})
+		return
+	}
+	want := ""
+	for i, in := range []string{"a1;", "a 1;", " a 1 ;", "a#1;", "a 1;#", "#a# #1;"} {
+		w.Count("evaluations", 1)
+		v, err := derived.ParseString("", in)
+		b, _ := json.Marshal(v)
+		got := fmt.Sprintf("%s err=%v", b, err)
+		if i == 0 {
+			want = got
+		} else if got != want {
+			w.Violate(hx.Violation{Key: fmt.Sprintf("shared-options :: ParserForProduction[Stmt] of a parser with Elide(Space, Comment) :: in=%q", in), Class: "respacing-changes-parse", Detail: map[string]any{"got": got, "unspaced_input_gives": want}})
+		}
+	}
 }
 
 // runPumped: long flat inputs through choice points (size-triggered behaviour such as flushing deferred
@@ -717,7 +790,7 @@ func plan(c *hx.Ctx) *hx.Plan {
 		famCount[gr.Family]++
 	}
 	extra := 0
-	if c.Prop == "C13" || c.Prop == "C01" || c.Prop == "C02" {
+	if c.Prop == "C13" || c.Prop == "C01" || c.Prop == "C02" || c.Prop == "C10" {
 		extra = 1
 	}
 	return &hx.Plan{
@@ -732,11 +805,15 @@ func plan(c *hx.Ctx) *hx.Plan {
 				runPumped(w, c.Prop)
 				return
 			}
+			if c.Prop == "C10" && i == len(grs) {
+				runSharedOptions(w)
+				return
+			}
 			(&explorer{prop: c.Prop, w: w, tc: tc, extendedChain: i%3 == 0}).runGrammar(grs[i], nil)
 		},
 		Describe: func(i int) string {
 			if i >= len(grs) {
-				return "long-branch / pumped"
+				return "long-branch / pumped / shared options"
 			}
 			return grs[i].Key()
 		},
